@@ -10,9 +10,9 @@ def run(c):
     c.build_worker()
     cfg = 'CONSTANT Tier = "%s"\nINIT Init\nNEXT Next\nCONSTRAINT Emit\nCHECK_DEADLOCK FALSE\n' % ("q" if c.quick else "t")
     cfgs = c.tlc("MC_P7Third", "run.cfg", files={"run.cfg": cfg}, name="producer-configurations").json_lines()
-    scen = [dict(g, sc=i, mode="none", n=0) for i, g in enumerate(cfgs)]
+    scen = [dict(g, sc=i, mode="none", n=0, tz=("", "+09:00", "-03:30")[i % 3]) for i, g in enumerate(cfgs)]      # process time zone: UTC, +09:00, -03:30
     fx = ["fixture-sbsign", "fixture-sbvarsign", "fixture-sbvarsign-db", "fixture-hello-signed", "fixture-kek-noattrs", "fixture-testsigned-noattrs"]
-    scen += [{"sc": 10 ** 6 + i, "source": n, "mode": "none", "n": 0} for i, n in enumerate(fx)]
+    scen += [{"sc": 10 ** 6 + 10 * i + k, "source": n, "mode": "none", "n": 0, "tz": z} for i, n in enumerate(fx) for k, z in enumerate(("", "+09:00", "-03:30"))]
     env = dict(os.environ, VERIF_FIXTURES=os.path.join(vf.VERIF, "fixtures"), VERIF_REPO=vf.REPO)
     res, deaths = c.run_worker("p7mut", scen, env=env, timeout=1800)
     skipped = [ev for s in scen for ev in res.get(s["sc"], []) if ev.get("skip")]
